@@ -66,6 +66,30 @@ def dependency_histories():
     return out
 
 
+def eval_up_to_histories():
+    """`eval_up_to` with a buffer that differs from what the session has loaded (parameters added, removed,
+    renamed; another function), the cursor on every identifier of the buffer, after the function was or was
+    not called. Seeded change C09-2 indexed the saved call arguments by the NEW parameter list and died on
+    `fun f(a) { a }`, `f(1)`, eval_up_to(`fun f(a, b) { a }`, cursor on b)."""
+    import re as _re
+    loaded = [("fun f(a) { a }", "f(1)"), ("fun f(a, b) { a + b }", "f(1, 2)"), ("fun f() { 1 }", "f()"),
+              ("method m(this: Int, k: Int): Int { this + k }", "3.m(4)")]
+    buffers = ["fun f(a, b) { a }", "fun f(a, b, c) { c }", "fun f() { 1 }", "fun f(b) { b }", "fun g(z) { z }",
+               "method m(this: Int, k: Int, j: Int): Int { this + j }", "method m(this: Int): Int { this }",
+               "method m(this: String, k: Int): Int { k }"]
+    out = []
+    for d, call in loaded:
+        for buf in buffers:
+            offs = [m.start() for m in _re.finditer(r"[A-Za-z_]\w*", buf)] + [len(buf) - 1]
+            for off in offs:
+                for called in (True, False):
+                    reqs = [dict(kind="run", input=d)] + ([dict(kind="run", input=call)] if called else [])
+                    reqs.append(dict(kind="other", obj={"method": "eval_up_to", "path": None, "src": buf, "offset": off}))
+                    reqs.append(dict(kind="run", input="1 + 2"))
+                    out.append(reqs)
+    return out
+
+
 def seed_history(s):
     reqs, ints = s
     return [dict(kind="run", input=x, id=i + 1) for i, x in enumerate(reqs)], ints
@@ -132,6 +156,14 @@ def run(ctx):
     nomodel = set(len(histories) + i for i, d in enumerate(dep) if any(x.startswith("fun f(a, b)") for x in d[0][1:]))
     histories += [seed_history(s) for s in dep]
     n_hist += len(dep)
+    eut = eval_up_to_histories()
+    if ctx.tier == "quick":
+        eut = rng.sample(eut, 90)
+    for reqs in eut:
+        for i, r in enumerate(reqs):
+            r["id"] = i + 1
+        histories.append((reqs, []))
+    n_hist += len(eut)
     while len(histories) < n_hist:
         reqs, ints = SC.gen_history(rng, rng.randrange(3, max_len + 1), cmds)
         histories.append((reqs[:max_len], ints))
